@@ -16,6 +16,7 @@ func TestVerif(t *testing.T) {
 			"stream = complete / one extra byte after the end / EOF at every earlier offset / reader error at every offset; chunking = every composition into chunks of 1-2 [1-3] bytes x one 0-byte read at every position (or none) x end signal separate or together with the last chunk. " +
 			"Each case is run against content.ReadAll, content.FetchAll, content.NewVerifyReader (every sequence of 4 calls over {Read(1),Read(2),Read(8),Verify} [thorough: 5 calls for the chunkings without 0-byte read / joined end]), ioutil.CopyBuffer (4 writer/buffer variants), and Push on a fresh cas.Memory, memory.Store, " +
 			"LimitedStorage(limit=Size-1/Size/Size+1), oci.Storage, oci.Store, file.Store named (into an empty directory, and over a longer file already at the name's path; after success the file must hold exactly the named bytes), file.Store named directory layer (unpack annotation; the enumerated bytes are never a valid archive, so the push fails during or after verification), file.Store unnamed (memory fallback and OCI fallback), and through cas.Proxy (no limit, limit=Size-1/Size/Size+1; FetchAll and read-to-EOF consumers; cache fill + second fetch; each case runs in its own testing/synctest bubble, where a virtual-time timer can only fire when every goroutine is blocked for ever, so a fetch that never returns is a deterministic verdict). " +
+			"restore: the file store's other way of making content visible - a manifest naming stored content under a second file name (3 contents x layer size {right,-1,+1,0,7} x digest {right, unknown} x first file {untouched, changed on disk, truncated}): the second name may become visible only if the bytes copied are exactly what the layer descriptor says. " +
 			"Oracle (hand-computed sha256/sha512 of the generator's own bytes): Push may return nil only if the stream holds at least Size bytes and the first Size bytes hash to Digest (Size>=0, digest well-formed and supported); after a failed such push Exists is false, Fetch fails (for a named descriptor also when asked with the bare descriptor of the same digest) and blobs/ has no new regular file; " +
 			"data handed back without error equals the named content, and bytes beyond Size are an error for ReadAll/FetchAll/VerifyReader/CopyBuffer. Not judged (counted as note:*): refusing good content, Push accepting/refusing bytes beyond Size, reader errors after Size bytes, ingest/ leftovers. " +
 			"concurrent: 2-3 goroutines pushing {good, wrong bytes, early EOF, reader error, extra byte} under one digest (+ an observer fetching twice) into 8 store kinds under every schedule within D<=3 deviations around 3 base schedulers and P<=2 [P<=3] preemptions around the 2 non-preemptive ones for two pushers, D<=2 with an observer and for three pushers; bad pushes must fail, every successful Fetch (during or after) must hand back exactly the good bytes, nothing visible / no blob file if every push failed, every file under blobs/ hashes to its name. " +
@@ -38,6 +39,7 @@ func jobs(tier string) []driver.Job {
 	// first, followed by a wave of sample-free sequential jobs, then the long
 	// concurrent jobs so that the tail of the run is short.
 	out = append(out, sampleJob(sp))
+	out = append(out, restoreJob())
 	seq := seqJobs(sp)
 	var rest []driver.Job
 	for _, j := range seq {
